@@ -16,7 +16,7 @@ PENDING = {}
 PROPS = {
     "C01": dict(
         sim="hdrsim", props_file="Props/C01.v", sim_args=["-profile", "C01"],
-        n_quick=160, n_thorough=1500, shards_quick=16, shards_thorough=16,
+        n_quick=600, n_thorough=6000, shards_quick=16, shards_thorough=16,
         technique='Coq proof (state invariant by induction over all operation histories) + in-kernel differential correspondence with headers.Repository',
         level_text='Machine-checked: in every reachable state of every history the tip has maximal work among in-memory headers and above all its ancestors, the reported chain is the linked ancestry of the tip, refusals change nothing. Tied to the code by replaying generated histories (forks of forks, sibling/cousin forks, overtaking, orphans, duplicates, Clean/Save/Load) on the real repository and comparing tip, work and the chain at every height after every operation.',
         level_note='Theorems are about the hand-written reference model coq/Headers/Tree.v; the tie to /repo/headers is differential on generated histories (tag verif hooks VerifClean/VerifLoad for small prune depths), masked to the observables this property pins down. C01_max_work is marked partial in Coq (see Props/C01.v).',
@@ -31,7 +31,7 @@ PROPS = {
     ),
     "C07": dict(
         sim="hdrsim", props_file="Props/C07.v", sim_args=["-profile", "C07"],
-        n_quick=160, n_thorough=1500, shards_quick=16, shards_thorough=16,
+        n_quick=600, n_thorough=6000, shards_quick=16, shards_thorough=16,
         technique='Coq proof (stream reconstruction theorem for every submission in every reachable state) + differential correspondence + trace decider',
         level_text="Machine-checked: for every submission, applying the announced headers to the previous chain yields the new chain; only best-chain headers are announced; nothing when the tip does not move. Tied to the code by comparing the drained channel with the model's announcement after every submission, and by a decider that applies the implementation's own stream and compares with the chain it reports (several subscribers).",
         level_note='Theorems are about the hand-written reference model coq/Headers/Tree.v; the tie to /repo/headers is differential on generated histories (tag verif hooks VerifClean/VerifLoad for small prune depths), masked to the observables this property pins down.',
@@ -46,7 +46,7 @@ PROPS = {
     ),
     "C08": dict(
         sim="hdrsim", props_file="Props/C08.v", sim_args=["-profile", "C08"],
-        n_quick=160, n_thorough=1500, shards_quick=16, shards_thorough=16,
+        n_quick=600, n_thorough=6000, shards_quick=16, shards_thorough=16,
         technique='Coq proof (decision table and refusal-no-op theorems on the model) + differential correspondence + refusal decider',
         level_text='Machine-checked decision table for the verdict, refusal leaves the state identical, resubmission of a held header is a no-op any number of times. Tied to the code by comparing errors.Cause of every ProcessHeader answer with the model on adversarial next headers (orphans, duplicates on any branch, forks exactly at / beyond MaxBranchDepth for 0,1,2,3,5,144) and by a decider that compares full observations before and after every refusal.',
         level_note='Theorems are about the hand-written reference model coq/Headers/Tree.v; the tie to /repo/headers is differential on generated histories (tag verif hooks VerifClean/VerifLoad for small prune depths), masked to the observables this property pins down.',
@@ -61,7 +61,7 @@ PROPS = {
     ),
     "C09": dict(
         sim="hdrsim", props_file="Props/C09.v", sim_args=["-profile", "C09"],
-        n_quick=160, n_thorough=1500, shards_quick=16, shards_thorough=16,
+        n_quick=600, n_thorough=6000, shards_quick=16, shards_thorough=16,
         technique='Coq proof (lookup theorems over the invariant) + differential correspondence on every lookup of every created header',
         level_text='Machine-checked: heights are tree depths, the best-chain flag is ancestry of the tip, predecessors are true parents, unknown hashes are unknown. Tied to the code by comparing HashHeight / CheckHeader / PreviousHash / GetHeader (must hash to the request) / Hash / Header / GetHeaders for every header ever created, after every operation including Clean(depth) and Load(depth) with small depths.',
         level_note='Theorems are about the hand-written reference model coq/Headers/Tree.v; the tie to /repo/headers is differential on generated histories (tag verif hooks VerifClean/VerifLoad for small prune depths), masked to the observables this property pins down.',
@@ -76,7 +76,7 @@ PROPS = {
     ),
     "C10": dict(
         sim="hdrsim", props_file="Props/C10.v", sim_args=["-profile", "C10"],
-        n_quick=160, n_thorough=1500, shards_quick=16, shards_thorough=16,
+        n_quick=600, n_thorough=6000, shards_quick=16, shards_thorough=16,
         technique='Coq proof (Clean is the identity on observables; history stays retrievable) + differential correspondence attributed through a clean-free control run',
         level_text='Machine-checked: Clean changes no reported observable for any state and depth, keeps best-chain history retrievable and preserves the invariant. Tied to the code by running each history with and without its Cleans on the real repository: a disagreement with the model that the control run does not show is a violation.',
         level_note='Theorems are about the hand-written reference model coq/Headers/Tree.v; the tie to /repo/headers is differential on generated histories (tag verif hooks VerifClean/VerifLoad for small prune depths), masked to the observables this property pins down. C10_future is decided by the correspondence only.',
@@ -91,7 +91,7 @@ PROPS = {
     ),
     "C11": dict(
         sim="hdrsim", props_file="Props/C11.v", sim_args=["-profile", "C11"],
-        n_quick=160, n_thorough=1500, shards_quick=16, shards_thorough=16,
+        n_quick=600, n_thorough=6000, shards_quick=16, shards_thorough=16,
         technique='Coq proof (Save;Load restores invariant, invalid list, best chain and heights) + differential correspondence attributed through a control run',
         level_text='Machine-checked: Save;Load(depth) re-establishes the invariant, the invalid list, the best chain at every height; generations by induction. Tied to the code by running each history with Save;Load(depth) pairs into a fresh repository on the same storage and comparing all later answers with the model, with a control run without the pairs.',
         level_note='Theorems are about the hand-written reference model coq/Headers/Tree.v; the tie to /repo/headers is differential on generated histories (tag verif hooks VerifClean/VerifLoad for small prune depths), masked to the observables this property pins down. Restoration of side branches within the retained depth and C11_future are decided by the correspondence only; legacy version-0 migration and empty storage are outside the model.',
@@ -106,7 +106,7 @@ PROPS = {
     ),
     "C17": dict(
         sim="hdrsim", props_file="Props/C17.v", sim_args=["-profile", "C17"],
-        n_quick=160, n_thorough=1500, shards_quick=16, shards_thorough=16,
+        n_quick=600, n_thorough=6000, shards_quick=16, shards_thorough=16,
         technique='Coq proof (mark removes the subtree, refusal while marked, invalid list/file invariant) + differential correspondence',
         level_text='Machine-checked: marking removes the header and everything built on it, the tip falls back to a maximal-work remaining header, the hash is refused while marked, the list survives Save/Load, unmarking clears it. Tied to the code by histories with Mark/Unmark of best-chain, side-branch, first-of-branch, unseen and already marked headers, followed by submissions and Save/Load.',
         level_note='Theorems are about the hand-written reference model coq/Headers/Tree.v; the tie to /repo/headers is differential on generated histories (tag verif hooks VerifClean/VerifLoad for small prune depths), masked to the observables this property pins down.',
